@@ -53,6 +53,14 @@ pub struct Case {
 }
 
 fn oracle(c: &Case, acc: &mut Acc) -> CaseResult {
+    // in a quarter of the cases both parties also pin the peer's true static key although the
+    // pattern transmits it: what arrives must still be what is authenticated
+    let mut pinned = c.spec.clone();
+    if c.spec.key_seed % 4 == 1 {
+        pinned.pin_rs = true;
+        acc.label("remote_static:pinned_although_transmitted");
+    }
+    let c = &Case { spec: pinned, idx: c.idx, alt: c.alt.clone(), plen: c.plen };
     let spec = &c.spec;
     let name = spec.name_string();
     let nm = spec.n_msgs();
